@@ -690,6 +690,8 @@ Proof.
     exact Rm8.
   - destruct (alookup (r_mid r) (rmap s)) as [o|] eqn:Er.
     + (* a single-result operation holds this id *)
+      match goal with |- context [if ?b then _ else _] => destruct b end;
+        [apply acctx_acct; apply (acctx_irrelevant _ _ s0); [exact A0|reflexivity..]|].
       apply acctx_acct.
       apply (acctx_irrelevant _ _ (drop_entry (rmap s0) (r_mid r) (fill_reply (Some r)) s0 <| rmap ::= aremove (r_mid r) |>)).
       * apply acctx_rm_r; [exact A0|apply settles_fill].
